@@ -419,7 +419,12 @@ def dateDiffYM (u : DUnit) (a b : Int × Int) : Int := ymIndex u b.1 b.2 - ymInd
 def stripChars (chars : List Char) (s : List Char) : List Char :=
   ((s.dropWhile chars.contains).reverse.dropWhile chars.contains).reverse
 
-def trimImpl (s : List Char) (_chars : Option (List Char)) : List Char := stripChars [' '] s
+/-- `trim_cast_varchar` leaves a TRIM whose operand already is a cast to VARCHAR/TEXT untouched (characters argument
+    kept); otherwise it rebuilds the node from `this` only and the characters argument is lost -/
+def trimImplG (operandIsTextCast : Bool) (s : List Char) (chars : Option (List Char)) : List Char :=
+  if operandIsTextCast then stripChars (chars.getD [' ']) s else stripChars [' '] s
+
+def trimImpl (s : List Char) (chars : Option (List Char)) : List Char := trimImplG false s chars
 def trimSpec (s : List Char) (chars : Option (List Char)) : List Char := stripChars (chars.getD [' ']) s
 
 /-! ## "wherever it appears": a node-local rewrite under sqlglot's traversal -/
